@@ -52,7 +52,7 @@ func dirsrcDriver(args []string) (*Summary, error) {
 		s.Cases++
 		bad, good := 0, 0
 		for _, e := range c.Entries {
-			if e.Kind == "good" || e.Kind == "goodT" || e.Kind == "goodR" {
+			if e.Kind == "good" || e.Kind == "goodT" || e.Kind == "goodR" || e.Kind == "goodL" {
 				good++
 			} else {
 				bad++
